@@ -97,11 +97,7 @@ def check(run, replay=None):
                 "chain and as raw JSON (built from the method signature) on a second identically seeded chain; after every step the "
                 "result (events, data, error text) and the state (storage dump, contract info, balances) are compared; "
                 "non-trivial = distinct (program, history)")
-    try:
-        text, info, *_ = translate.generate()
-        translate.write_gentables(text)
-    except translate.TranslateError as e:
-        run.translator_error(str(e))
+    translate.regen_tables(run)
     run.hygiene()
     run.prove("Props/C12", THEOREMS)
     c = build(run, thorough)
